@@ -18,7 +18,7 @@ N_THOROUGH = 20000
 EXPLANATION = ''
 
 def profiles(thorough):
-    p = Profile(nT=3, nS=3, nG=3, nC=8, nK=2, specs={"fn": 5, "mem": 2, "trk": 2, "trk2": 1, "bref": 1, "nest": 1, "fwd": 1},
+    p = Profile(nT=3, nS=3, nG=3, nC=8, nK=2, specs={"fn": 5, "mem": 2, "trk": 2, "trk2": 1, "bref": 1, "nest": 1, "fwd": 1, "ownT": 2, "ownK": 2},
                 body_prob=0.7, body_len=(1, 5), len=(12, 50 if not thorough else 150), maxdepth=5 if thorough else 4,
                 w={"connfn": 14, "emit": 12, "newT": 4, "newG": 4, "conn": 3, "mkS": 3, "size?": 4, "connected?": 4, "delT": 1, "delG": 1},
                 bw={"connfn": 6, "disc": 6, "clear": 2, "blockC": 3, "blockG": 1, "delT": 4, "delG": 3, "asgG": 1, "masgG": 1,
